@@ -34,9 +34,12 @@
      C04_sequential    run one call at a time, the table layer answers as a
                        builtin map for every hash, seed and policy (C11)
    Under the hypotheses [xhyps4]: index function in range, at least one slot per
-   bucket, and the SWAR probe visits every slot carrying the tag and never a
-   slot marked empty (util.go; checked against the code by CORR-sched with the
-   exact probe_swar, not proved for it).
+   bucket, and the probe visits every slot carrying the tag and never a slot
+   marked empty.  C04_instance: they hold for the extracted machine that
+   CORR-sched replays against the code -- in particular for the SWAR byte search
+   of util.go (markZeroBytes on the packed meta word; proofs/X_swar.v: a zero
+   byte is always marked whatever the borrow from the bytes below, a byte with
+   its top bit set never).
      C04_abs_step      (the abstract map, [abs] = what a reader loading m.table now
                        can find) every step of every thread from every reachable
                        state changes [abs] in exactly one of these ways:
@@ -63,7 +66,7 @@
    with colliding hashers and tables at the grow / shrink thresholds and checks
    every history for linearizability (porcupine). *)
 From CacheV Require Import Base SpecMap TableModel XMachine TabExec Exec XExec.
-From CacheV.proofs Require Import C11_lists C11_table C11_idx X_basic X_inv X_c13 X_inst X_own X_chain X_c04 X_lin X_resize.
+From CacheV.proofs Require Import C11_lists C11_table C11_idx X_basic X_inv X_c13 X_inst X_own X_chain X_c04 X_lin X_resize X_swar.
 From Coq Require Import NArith.
 Local Open Scope nat_scope.
 
@@ -154,6 +157,21 @@ Theorem C04_clear_kt :
     hint_ok (g_pc (fst (@xrun K V eqd hash idx tag nslots seeds g sh probe nstripes minlen grow_only (xinit nslots seeds nstripes len0 todo) sched)) t).
 Proof. exact @clear_kt_proof. Qed.
 Print Assumptions C04_clear_kt.
+
+Theorem C04_instance :
+  forall hint, xhyps4 idx_mapof nstripes_x (minlen_of_hint true hint) (Z.to_nat Params.entriesPerMapOfBucket) probe_x.
+Proof. exact x_instance_hyps4. Qed.
+Print Assumptions C04_instance.
+
+(* the Go SWAR search itself, on the inputs the Go code is given *)
+Theorem C04_swar :
+  forall tags tg i, tags_ok tags -> (tg < 128)%N -> (length tags <= 5)%nat ->
+    (In i (probe_swar tags tg) -> (i < length tags)%nat /\ nth i tags None <> None)
+    /\ ((i < length tags)%nat -> nth i tags None = Some tg -> In i (probe_swar tags tg)).
+Proof.
+  intros tags tg i H1 H2 H3. split; [apply probe_swar_sound; assumption | apply probe_swar_complete; assumption].
+Qed.
+Print Assumptions C04_swar.
 
 (* non-vacuity: all keys collide (constant hash); thread 0 has stored the meta byte
    of its insert and is about to store the entry pointer: lin_effect binds key 7 *)
